@@ -202,6 +202,12 @@ Exec(stmts, i, st, cx) ==
   IN
   CASE s.k = "expr" -> next(Havoc(Ev(s.e, st, cx).st))
     [] s.k = "nop" -> next(st)
+    \* declaration of a local (the generator gives every local a unique name; scoping is resolved by construction
+    \* and tested through the renderer, which prints the short, possibly shadowing, C name)
+    [] s.k = "decl" -> (IF s.init.k = "none" THEN next(st)
+                        ELSE LET r == Ev(s.init, st, cx)
+                                 ty == VarTy(cx.vt[s.name])
+                             IN next(Havoc([r.st EXCEPT ![s.name] = U(Wrap(r.v, ty), ty.w)])))
     [] s.k = "block" -> sub(Exec(s.b, 1, st, cx))
     [] s.k = "if" ->
         (LET c == Ev(s.c, st, cx)
